@@ -397,7 +397,11 @@ class Loader:
                          obj.get('max_utilization'))
 
             trait_list = obj.get('traits', [])
-            traitz, _ = traits.encode(self.trait_codes, trait_list)
+            # A trait no server has reported yet is still a requirement:
+            # register it, so that only servers that report it later match.
+            traitz, self.trait_codes = traits.encode(
+                self.trait_codes, trait_list, add_new=True
+            )
             alloc.set_traits(traitz)
 
             for assignment in obj.get('assignments', []):
